@@ -12,6 +12,12 @@ namespace Sq
 
 abbrev Msg := List Nat
 
+/-- `x as i32` for a `u32` value -/
+def u32ToI32 (x : Nat) : Int := if x < 2147483648 then (x : Int) else (x : Int) - 4294967296
+
+/-- `x as u32` for an `i32` value -/
+def i32ToU32 (x : Int) : Nat := (x % 4294967296).toNat
+
 /-- `message[i]`.  TRAP: index out of range (the model returns 0; see `Checked`). -/
 @[inline] def nib (m : Msg) (i : Nat) : Nat := m.getD i 0
 
